@@ -96,7 +96,8 @@ CLAIMED = {
 PROXY_NOTE = ("Whole-proxy engine: the model Proxy.proxy_step (one state per listen entry, shared learned table, transport table, pins, rotation) is played against the REAL proxy "
               "started through startProxy from YAML on loopback sockets, one 127.X.Y.0/24 block per scenario, a barrier request after every event; the property's executable judge "
               "(SpecProxy.v / SpecProxy2.v, its own minimal SIP reader) is applied to what the real proxy emitted. Theorems are about the model at the level of decoded messages; the "
-              "judge-level link is proved for C01 (C01_judge_bridge_*) and exercised by the runs for the others. Proxy-generated branches and OS-chosen ports are canonicalised. ")
+              "judge-level link (the executable judge, run on the bytes the model emits, answers 0) is proved as Cxx_judge_bridge_* for C01, C02, C03, C06, C07 and C13 on the "
+              "C14 grammar domain and exercised by the runs for the others. Proxy-generated branches and OS-chosen ports are canonicalised. ")
 CLAIMED.update({
     "C01": ("Theorems for every message, configuration, state and every relaying path (backend, Route, static route, response by Via; UDP and TCP): C01_relay_preserves (every output is "
             "write_message of a message with the same non-routing view: start line, every (name, value) pair other than Via/Route/Record-Route/Content-Length in order and multiplicity, body), "
@@ -108,7 +109,10 @@ CLAIMED.update({
     "C02": ("Theorems for every response, state, configuration: C02_response_general / C02_response_hop (both layouts: comma list and repeated lines, compact/odd-case names: exactly one send to "
             "received-or-host, numeric-rport-or-sent-by-port, over the entry's transport, with the remaining Via entries intact), C02_single_via_dropped, C02_undecodable_dropped, C02_dest_unsupported, "
             "C02_dest_udp, C02_dest_tcp + C02_tcp_slot_reachable (a TCP Via never leaves as a datagram in any reachable state), C02_independent_of_pins, C02_roundtrip(_return) (the response to a "
-            "relayed request returns to the true source / its sent-by with the Via stack that hop sent), C02_process_response; C02_legacy_refuted witness in proofs/C02.v.",
+            "relayed request returns to the true source / its sent-by with the Via stack that hop sent), C02_process_response; C02_legacy_refuted witness in proofs/C02.v. "
+            "Judge link (proofs/C02_bridge.v): C02_judge_bridge_core, _step_udp, _step_drop, _step_unsupported, _step_unresolved (full: judge_C02_event answers 0 on the model's own "
+            "output for every response in the Via grammar domain), _step_tcp_sent / _step_tcp_fresh (full when the model wrote on a connection / for the first use of an address), "
+            "_step_tcp_partial (general TCP: agreement between the judge's and the model's view of open connections is a hypothesis).",
             PROXY_NOTE + "C02_dest_udp carries a state condition (udp_slot_ok): after a failed oversized datagram FailOverClientTransport forgets its UDP primary for good (model and Go code alike; recorded as an observation).",
             "Coq proof (Via-view of a message, pop/hop/send characterisations, reachable-state invariant) + whole-proxy differential run with independent judge"),
     "C03": ("Theorems for every message, state, configuration: C03_at_most_one(_udp/_tcp) (no event ever sends to two destinations), C03_choice (the hop is exactly choose_hop written from the "
@@ -124,7 +128,8 @@ CLAIMED.update({
             "Coq proof (insertion-position lemmas, flattened Via/Record-Route views) + whole-proxy differential run with independent judge"),
     "C07": ("Theorems: C07_stamp + C07_stamp_params + C07_kv_set_char (received = source IP overriding a supplied one, rport = source port iff an rport parameter was present, every other "
             "parameter, entry and header untouched), C07_pipeline (stamping iff received-support and request), C07_wiring (every listener kind gets !no-received from the YAML) / C07_wiring_legacy "
-            "(the pre-fix argument order gives the never-set defRoute), C07_wired_reachable (accepted AND dialled connections in every reachable state), C07_step_udp / C07_step_tcp.",
+            "(the pre-fix argument order gives the never-set defRoute), C07_wired_reachable (accepted AND dialled connections in every reachable state), C07_step_udp / C07_step_tcp. Judge link (proofs/C07_bridge.v): C07_judge_bridge_udp / "
+            "C07_judge_bridge_step (judge_C07_event answers 0 on the bytes the model emits, for every request in the Via grammar domain).",
             PROXY_NOTE + "The wiring is exercised for real: YAML -> loadConfigFromReader -> startProxy; requests arrive over UDP, accepted TCP connections and connections the proxy dialled itself.",
             "Coq proof (parameter-list characterisation of SetParam, wiring function, reachable-state invariant) + whole-proxy differential run with independent judge"),
     "C04": ("Theorems over every history (no bound on length, dialogs, backends): C04_bind / C04_bind_subscribe (a response with both tags whose CSeq method is INVITE coming from a backend address - or a "
@@ -154,7 +159,8 @@ CLAIMED.update({
             "C13_next_hop_popped_iff_not_keep, C13_route / C13_route_decoded (the relayed Route entries are exactly skipn (own?1:0 + (next hop stripped?1:0)) of the received ones, near misses "
             "included as the own = false branch), C13_route_view_grammar + C13_route_header_text (link to bytes through the C14 theorems), "
             "C13_keep_setting_decides / C13_keep_env_default (where the keep-next-hop-route setting comes from: the service's own text whenever it is "
-            "not empty, the environment variable KEEP_NEXT_HOP_ROUTE only for an empty one).",
+            "not empty, the environment variable KEEP_NEXT_HOP_ROUTE only for an empty one). Judge link (proofs/C13_bridge.v): C13_route_headers, "
+            "C13_judge_bridge_udp / C13_judge_bridge_step (judge_C13_event answers 0 on the bytes the model emits).",
             PROXY_NOTE + "The real proxy is started under generated keepNextHopRoute spellings and KEEP_NEXT_HOP_ROUTE values.",
             "Coq proof (route view flattened over all Route headers, invariance under in-place decoding) + whole-proxy differential run with independent judge"),
     "C17": ("Theorems: C17_same_header_equiv/_refl/_sym/_trans (same_header = equality of the expanded lower-case names, for ALL names), commutation of every look-up/update/insert with "
